@@ -787,3 +787,75 @@ Proof.
   exists (st_of ex_cfg (ex_tr_delivered ++ [LRelNext])). split; [apply reach_st_of; vm_compute; discriminate|].
   vm_compute. repeat split; reflexivity.
 Qed.
+
+(** * C01.2: what a response carries *)
+(* a rejected member is answered with the error recorded by checkAndAssign, and no handler ran for it *)
+Theorem c01_pre_body c s k t code msg : reach c s -> nth_error (tasks s) k = Some t -> t_pre t = Some (code, msg) ->
+  task_body t = BErr code msg /\ t_st t = TSkip /\ forall tr, enter_count k s tr = 0.
+Proof.
+  intros R E P. split; [unfold task_body; rewrite P; auto|]. split.
+  - apply (task_pre_skip c s k t (code, msg)); auto. apply reach_reachf; auto.
+  - intros tr. eapply c01_skip_never_starts; eauto.
+Qed.
+
+(* the gate: exactly one running task with these params takes the outcome *)
+Theorem c01_gate_step s p o s1 os : step_raw s (LGate p o) = Some (s1, os) ->
+  exists k t, nth_error (tasks s) k = Some t /\ t_st t = TRunning /\ t_params t = p /\
+    tasks s1 = upd_nth k (fun t => t <| t_st := TAtHandled o |>) (tasks s) /\ os = [OGate p (t_cancelled t)].
+Proof.
+  intros H. unfold step_raw in H.
+  destruct (find_idx _ 0 (tasks s)) as [k|] eqn:F; [|discriminate].
+  destruct (nth_error (tasks s) k) as [t|] eqn:E; [|discriminate]. injection H as <- <-.
+  apply find_idx_some in F as (x & Ex & Px & _). rewrite Nat.sub_0_r, E in Ex. injection Ex as <-.
+  apply andb_true_iff in Px as [Pp Ps]. apply beq_eq in Pp.
+  exists k, t. repeat split; auto. destruct (t_st t); try discriminate. auto.
+Qed.
+
+Theorem c01_gate_window s p o s' os : step s (LGate p o) = Some (s', os) ->
+  exists k t, nth_error (tasks s) k = Some t /\ t_st t = TRunning /\ t_params t = p /\
+    nth_error (tasks s') k = Some (t <| t_st := TAtHandled o |>) /\
+    (forall j tj, j <> k -> nth_error (tasks s) j = Some tj -> nth_error (tasks s') j = Some tj).
+Proof.
+  intros H. apply step_decompose in H as (_ & s1 & os1 & Hr & Hs).
+  destruct (c01_gate_step _ _ _ _ _ Hr) as (k & t & E & St & Ep & T1 & _).
+  assert (K : keeps_tasks s1 s').
+  { destruct Hs as [(_ & -> & _)|(_ & Hs)]; [intros j x Ex; auto|eapply settle_keeps; eauto]. }
+  exists k, t. repeat split; auto.
+  - apply K. rewrite T1. apply nth_error_upd_nth_eq; auto.
+  - intros j tj N Ej. apply K. rewrite T1, nth_error_upd_nth_neq; auto.
+Qed.
+
+(* the return of invoke: the stored body is the one determined by the gate's outcome *)
+Theorem c01_handled_window c s k s' os t o : reach c s -> step s (LRelHandled k) = Some (s', os) ->
+  nth_error (tasks s) k = Some t -> t_st t = TAtHandled o ->
+  nth_error (tasks s') k = Some (t <| t_st := TDone (body_of_outcome t o) |>).
+Proof.
+  intros R H E St. apply reach_reachf in R. pose proof (reachf_inv _ _ R) as I.
+  apply step_decompose in H as (_ & s1 & os1 & Hr & Hs).
+  assert (K : keeps_tasks s1 s').
+  { destruct Hs as [(_ & -> & _)|(_ & Hs)]; [intros j x Ex; auto|eapply settle_keeps; eauto]. }
+  apply K. unfold step_raw in Hr. rewrite E, St in Hr.
+  set (s0 := set_task k (fun t => t <| t_st := TDone (body_of_outcome t o) |>) s <| sem_free ::= S |>) in *.
+  assert (W0 : wait_ok s0).
+  { unfold wait_ok, s0; cbn. apply wait_ok_upd; [apply I|]. eapply wait_not_in; eauto; [apply I|congruence]. }
+  pose proof (grant_spec (S (length (sem_wait s0))) s0 [] W0) as G.
+  destruct (grant (S (length (sem_wait s0))) s0 []) as [s2 os2]. cbn [fst snd] in G.
+  assert (E2 : nth_error (tasks s2) k = Some (t <| t_st := TDone (body_of_outcome t o) |>)).
+  { apply (gp_same _ _ _ _ G); [|cbn; discriminate]. unfold s0. cbn. rewrite (nth_error_upd_nth_eq _ _ _ _ E). reflexivity. }
+  destruct (is_note t); [destruct (nbar s2)|]; injection Hr as <- <-; exact E2.
+Qed.
+
+Example c01_gate_window_nonvacuous :
+  exists s s' os, reach ex_cfg s /\ step s (LGate [91;93]%N (ORes [50%N])) = Some (s', os).
+Proof.
+  exists (st_of ex_cfg ex_tr_running). eexists _, _. split; [apply reach_st_of; vm_compute; discriminate|].
+  compute. reflexivity.
+Qed.
+
+Example c01_handled_window_nonvacuous :
+  exists s s' os t o, reach ex_cfg s /\ step s (LRelHandled 0) = Some (s', os) /\
+    nth_error (tasks s) 0 = Some t /\ t_st t = TAtHandled o.
+Proof.
+  exists (st_of ex_cfg (ex_tr_running ++ [LGate [91;93]%N (ORes [50%N])])). eexists _, _, _, _.
+  split; [apply reach_st_of; vm_compute; discriminate|]. compute. repeat split; reflexivity.
+Qed.
